@@ -67,6 +67,7 @@ func main() {
 	runRS256()
 	runAztecShapes()
 	runEncoderHistories()
+	runDecoderHistories()
 	chk.Finish()
 }
 
@@ -597,6 +598,85 @@ func runAztecShapes() {
 	runShapes(fmt.Sprintf("RS over GF(1024): Aztec codeword shapes (layers 9-22); single errors x magnitude menu; position pairs for n<=%d; full-weight families", pc), fields[4], sel(by[10]), false, pc)
 	runShapes(fmt.Sprintf("RS over GF(4096): Aztec codeword shapes (layers 23-32); single errors x magnitude menu; position pairs for n<=%d; full-weight families", pc), fields[5], sel(by[12]), false, pc)
 	// mode message codes over GF(16): (2,5) and (4,6) are covered by runRS16
+}
+
+// runDecoderHistories: ONE ReedSolomonDecoder object decodes a sequence of damaged words of different
+// shapes (parity counts in every order); each result must be what a fresh decoder object gives.
+func runDecoderHistories() {
+	type shp struct{ k, r int }
+	menu := []shp{{5, 2}, {9, 5}, {4, 10}, {6, 7}, {3, 4}}
+	type h struct{ f, a, b, c int }
+	var hs []h
+	for fi := range fields {
+		for a := range menu {
+			for b := range menu {
+				for c := range menu {
+					hs = append(hs, h{fi, a, b, c})
+				}
+			}
+		}
+	}
+	chk.Range("decoder reuse: every sequence of three damaged words with shapes from {(5,2),(9,5),(4,10),(6,7),(3,4)} (floor(r/2) errors each; also one undamaged variant) on ONE decoder object per field: each word restored exactly", len(hs),
+		func(i int) string { return fmt.Sprint(hs[i]) },
+		func(l *mc.Local, i int) {
+			x := hs[i]
+			f := fields[x.f]
+			for _, clean := range []int{-1, 0, 1} { // index of the call that gets an undamaged word (-1: none)
+				dec := rs.NewReedSolomonDecoder(f.lib)
+				for ci, mi := range []int{x.a, x.b, x.c} {
+					sh := menu[mi]
+					if sh.k+sh.r > f.ref.Size-1 {
+						continue
+					}
+					data := make([]int, sh.k)
+					for q := range data {
+						data[q] = (q*5 + mi + 1) % f.ref.Size
+					}
+					par := f.ref.Parity(data, sh.r, f.base)
+					word := append(append([]int{}, data...), par...)
+					rcv := append([]int{}, word...)
+					var pos []int
+					if ci != clean {
+						for e := 0; e < sh.r/2; e++ {
+							p := (e*3 + ci) % len(word)
+							dup := false
+							for _, o := range pos {
+								if o == p {
+									dup = true
+								}
+							}
+							if !dup {
+								pos = append(pos, p)
+								rcv[p] ^= 1 + (e+mi)%(f.ref.Size-1)
+							}
+						}
+					}
+					var err error
+					pm, site := mc.Guard(func() {
+						if e := dec.Decode(rcv, sh.r); e != nil {
+							err = e
+						}
+					})
+					l.Count("evaluations", 1)
+					cs := rsCase{f.name, sh.k, sh.r, data, pos, nil}
+					if pm != "" {
+						chk.Violation("C04/rs/decode-reuse/panic/"+site, pm, cs)
+						return
+					}
+					bad := err != nil
+					for q := range word {
+						if rcv[q] != word[q] {
+							bad = true
+						}
+					}
+					if bad {
+						chk.Violation("C04/rs/decode-reuse/"+f.name, fmt.Sprintf("call %d on a reused decoder object (shapes %v,%v,%v): word with %d <= floor(%d/2) errors not restored (err=%v)", ci+1, menu[x.a], menu[x.b], menu[x.c], len(pos), sh.r, err), cs)
+						return
+					}
+				}
+			}
+			l.Distinct("nontrivial", fmt.Sprint("dhist", x))
+		})
 }
 
 // runEncoderHistories: an encoder instance caches generator polynomials; every sequence of
